@@ -283,4 +283,19 @@ theorem c13_type_table_sane :
     knownTypes ≠ [] := by
   decide
 
+/-- what the envelope check does NOT cover (kept visible: this is where the unchanged
+    code violates "unowned hash slots are refused" — KNOWN FINDING
+    `viol:unowned-write:delta-cmd59-unfiltered`): an ApplyDelta command is accepted for
+    whatever hash slot its payload names, owned or not; which keys the wrapped command
+    then touches is entirely up to its handler (`one`).  Command 59
+    (CreateChannelRuntimeMeta batch) has no per-hash-slot filter, so a forwarded delta
+    for hash slot h also writes the batch's items of other hash slots. -/
+theorem c13_delta_bypasses_ownership_check (cfg : Cfg) (d : Bytes → Except Err Nat) (c : Cmd) (hs : Nat)
+    (hd : isApplyDelta c.data = true) (hok : d c.data = .ok hs) (heq : hs = c.hashSlot) :
+    resolveHashSlot cfg d c = .ok hs ∧ unowned cfg c = false := by
+  subst heq
+  simp [resolveHashSlot, unowned, hd, hok]
+
+example : resolveHashSlot demoCfg (fun _ => .ok 4) ⟨1, 4, 1, [1, 20]⟩ = .ok 4 := rfl
+
 end WK.C13
